@@ -168,12 +168,46 @@ theorem rmul_keeps_zero {n : Int} {e r : Equil α} (h : rmul n e = .ok r) (k : S
 theorem rmul_ok_iff (n : Int) (e : Equil α) :
     (∃ r, rmul n e = .ok r) ↔ n ≠ 0 ∧ (∃ k, e.net k ≠ 0) ∧ (n < 0 → e.K ≠ some 0) := rmul_isOk n e
 
+/-- `m * e` / `e * m` for an ARBITRARY Python object `m`, described by what `__rmul__` inspects of it (`PyMul`: its `is_integer`
+    attribute — missing, a callable with its result, or a plain value —, `isinstance(m, int)`, its numeric value) and telling the
+    truth about itself (`Sound`: accepted ⇒ integral value): an equilibrium is returned **iff** the code's `other_is_int` test accepts
+    `m` (`PyMul.accepted`: missing → `isinstance int`; callable → its result; else its truthiness), its integer value is not 0,
+    `e` has a net effect and no `0 ** negative` is needed; everything else is refused. -/
+theorem scaling_by_object_ok_iff (m : PyMul) (e : Equil α) (hs : m.Sound) :
+    (∃ r, rmulMul m e = .ok r) ↔
+      m.accepted = true ∧ m.val.num ≠ 0 ∧ (∃ k, e.net k ≠ 0) ∧ (m.val.num < 0 → e.K ≠ some 0) := rmulMul_isOk m e hs
+
+/-- and then the multiplier IS an integer `n`, the stoichiometry is scaled by `n` and the constant raised to the same `n`
+    (the consistency that `2.5 * e` = "stoichiometry ×2, K^2.5" violated before /repo 02113cf) -/
+theorem scaling_by_object_result (m : PyMul) (e r : Equil α) (hs : m.Sound) (h : rmulMul m e = .ok r) :
+    (m.val : Rat) = (m.val.num : Rat) ∧ (∀ k, r.net k = m.val.num * e.net k) ∧ r.K = e.K.map (fun K => K ^ m.val.num) :=
+  rmulMul_result m e r hs h
+
 /-- the constructor with its default checks returns an equilibrium **iff** no coefficient is negative (0 is accepted) and
     some species has a non-zero net coefficient (inactive parts included) -/
 theorem constructor_ok_iff (d : Bool) (r p ir ip : List (String × Int)) (K : Option α) :
     (∃ e, mkEqChecks d r p ir ip K none none = .ok e) ↔
       (∀ kv ∈ r ++ p ++ ir ++ ip, 0 ≤ kv.2) ∧ ∃ k, getI p k - getI r k + getI ip k - getI ir k ≠ 0 :=
   mkEqChecks_default d r p ir ip K
+
+/-- the constructor with ANY `checks` / `dont_check` arguments (coefficients ≥ 0): returns **iff** not both arguments are given,
+    every requested check exists, and — when `any_effect` is among the checks run (`checkNames` = `checks`, or the defaults
+    with `dont_check` toggled) — some species has a non-zero net coefficient -/
+theorem constructor_checks_ok_iff (d : Bool) (r p ir ip : List (String × Int)) (K : Option α) (cs dc : Option (List String))
+    (hall : ∀ kv ∈ r ++ p ++ ir ++ ip, 0 ≤ kv.2) :
+    (∃ e, mkEqChecks d r p ir ip K cs dc = .ok e) ↔
+      ¬ (cs.isSome = true ∧ dc.isSome = true) ∧ (∀ c ∈ checkNames cs dc, c ∈ defaultChecks) ∧
+      ("any_effect" ∈ checkNames cs dc → ∃ k, getI p k - getI r k + getI ip k - getI ir k ≠ 0) :=
+  mkEqChecks_isOk d r p ir ip K cs dc hall
+
+/-- the model's one artificial outcome `!negative-unchecked` (Python stores a negative coefficient there, the model's containers
+    cannot) occurs exactly when the arguments are otherwise accepted, `all_positive` is not among the checks run and some
+    coefficient is negative; everywhere else (in particular under the hypothesis of `constructor_checks_ok_iff`) it is never used -/
+theorem negative_unchecked_region (d : Bool) (r p ir ip : List (String × Int)) (K : Option α) (cs dc : Option (List String)) :
+    mkEqChecks d r p ir ip K cs dc = .error "!negative-unchecked" ↔
+      ¬ (cs.isSome = true ∧ dc.isSome = true) ∧ (∀ c ∈ checkNames cs dc, c ∈ defaultChecks) ∧
+      "all_positive" ∉ checkNames cs dc ∧ ∃ kv ∈ r ++ p ++ ir ++ ip, kv.2 < 0 :=
+  negative_unchecked_iff d r p ir ip K cs dc
 
 /-- `a + b` returns an equilibrium **iff** both or neither operand has a constant and some species does not cancel -/
 theorem add_ok_iff (a b : Equil α) :
@@ -223,6 +257,9 @@ theorem history_combo (pool : List (Equil α)) (steps : List Step) (ts : List (E
 /-- `primeFactors` (the model of `sympy.primefactors`' result) is exactly the set of primes dividing `n` -/
 theorem primeFactors_spec (n p : Nat) : p ∈ primeFactors n ↔ p.Prime ∧ p ∣ n ∧ n ≠ 0 := mem_primeFactors n p
 
+/-- `primeFactors` is strictly ascending (sorted, no repetition), as `sympy.primefactors` returns its list -/
+theorem primeFactors_ascending (n : Nat) : (primeFactors n).Pairwise (· < ·) := primeFactors_sorted n
+
 /-- the (not least) common multiple `∏ f^max|v//f|` computed by `eliminate` is a positive multiple of every non-zero `|v|` -/
 theorem rcd_common_multiple (viol : List Int) :
     0 < rcdOf (factorsOf viol) ∧ ∀ v ∈ viol, v ≠ 0 → v.natAbs ∣ rcdOf (factorsOf viol) :=
@@ -252,6 +289,22 @@ theorem eliminate_n (e0 : Equil α) (es : List (Equil α)) (wrt : String)
     ∃ (m0 : Int) (ms : List Int), eliminate (e0 :: es) wrt = .ok (m0 :: ms) ∧ m0 ≠ 0 ∧
       List.Forall₂ (fun m e => m ≠ 0 ∧ m0 * e0.net wrt + m * e.net wrt = 0) ms es := eliminate_many e0 es wrt h0 h
 
+/-- when does the combination `m₁*e₁ + m₂*e₂` with the multipliers of `eliminate` evaluate (the condition under which the last
+    clause of `eliminate_spec` speaks)? Exactly when no zero constant is put under a negative power, both or neither operand has
+    a constant, and the two equilibria do not cancel completely. -/
+theorem eliminate_combination_ok_iff (e1 e2 : Equil α) (wrt : String) (m1 m2 : Int)
+    (h1 : e1.net wrt ≠ 0) (h2 : e2.net wrt ≠ 0) (he : eliminate [e1, e2] wrt = .ok [m1, m2]) :
+    (∃ r1 r2 r, rmul m1 e1 = .ok r1 ∧ rmul m2 e2 = .ok r2 ∧ add r1 r2 = .ok r) ↔
+      (m1 < 0 → e1.K ≠ some 0) ∧ (m2 < 0 → e2.K ≠ some 0) ∧ (e1.K = none ↔ e2.K = none) ∧
+      ∃ k, m1 * e1.activeNet k + m2 * e2.activeNet k ≠ 0 := by
+  obtain ⟨m1', m2', he', hm1, hm2, _⟩ := eliminate_pair e1 e2 wrt h1 h2
+  rw [he] at he'
+  injection he' with he'
+  injection he' with e1' e2'
+  injection e2' with e2' _
+  subst e1'; subst e2'
+  exact combination_isOk e1 e2 m1 m2 hm1 hm2 ⟨wrt, h1⟩ ⟨wrt, h2⟩
+
 /-! ### cancel / intdiv, as_reactions -/
 
 /-- `intdiv` rounds toward zero: it is truncated division, so `|q·r| ≤ |p|`, the remainder has the sign of `p`
@@ -280,6 +333,35 @@ theorem cancel_spec {self rxn : Equil α} {ks : List String} {c : Option Int}
 /-- `cancel` returns (does not raise `ZeroDivisionError`) **iff** every species of `rxn` has a non-zero net coefficient in `rxn` -/
 theorem cancel_ok_iff (self rxn : Equil α) (ks : List String) :
     (∃ c, cancelWith self rxn ks = .ok c) ↔ ∀ k ∈ ks, rxn.net k ≠ 0 := cancelWith_isOk self rxn ks
+
+/-- `cancel` iterates over the SET `rxn.keys()`: neither whether it returns nor the magnitude of what it returns depends on the
+    iteration order (two orders = a permutation); only the sign can differ, on ties (notes finding 3) -/
+theorem cancel_order_independent (self rxn : Equil α) {ks ks' : List String} (hp : ks.Perm ks') :
+    ((∃ c, cancelWith self rxn ks = .ok c) ↔ ∃ c, cancelWith self rxn ks' = .ok c) ∧
+    ∀ c c', cancelWith self rxn ks = .ok c → cancelWith self rxn ks' = .ok c' → c.map Int.natAbs = c'.map Int.natAbs :=
+  ⟨cancelWith_isOk_perm self rxn hp, fun _ _ h h' => cancelWith_natAbs_perm hp h h'⟩
+
+/-- `as_reactions` returns the pair **iff**: a rate constant with units comes with a `units` module; exactly one of `kf`, `kb`
+    is given; the equilibrium has a constant `K`; `c0 ** (nb − nf)` is defined (`c0 ≠ 0` for a negative exponent `deltaN e`); the
+    divisor `K · c0^(nb−nf)` is non-zero when `kf` is the given one; and the equilibrium has a net effect. -/
+theorem asReactions_ok_iff (e : Equil α) (kf kb : Option α) (unitsGiven rateHasUnits : Bool) (c0 : α) :
+    (∃ p, asReactionsPy e kf kb unitsGiven rateHasUnits c0 = .ok p) ↔
+      (unitsGiven = true ∨ rateHasUnits = false) ∧ (kf.isSome = !kb.isSome) ∧
+      (∃ K, e.K = some K ∧ (deltaN e < 0 → c0 ≠ 0) ∧ (kf.isSome = true → K * c0 ^ deltaN e ≠ 0)) ∧
+      ∃ k, e.net k ≠ 0 := by
+  unfold asReactionsPy
+  by_cases h : (!unitsGiven && rateHasUnits) = true
+  · rw [if_pos h]
+    have h' : unitsGiven = false ∧ rateHasUnits = true := by simpa using h
+    constructor
+    · rintro ⟨p, hp⟩; cases hp
+    · rintro ⟨h1 | h1, _⟩
+      · rw [h'.1] at h1; cases h1
+      · rw [h'.2] at h1; cases h1
+  · rw [if_neg h, asReactions_isOk]
+    have h' : unitsGiven = true ∨ rateHasUnits = false := by
+      cases unitsGiven <;> cases rateHasUnits <;> simp at h ⊢
+    exact ⟨fun hx => ⟨h', hx⟩, fun hx => hx.2⟩
 
 /-- `as_reactions`: the pair is the forward and the backward direction of the equilibrium (inactive parts
     included) and the rate constants satisfy `kf = kb · K · c₀^(nb − nf)`, the given one being kept. -/
@@ -352,6 +434,29 @@ example : ¬ (EqExpr.Okay (.sub (.leaf exA) (.leaf exA))) := by
 /-- three equilibria, and refusals of eliminate -/
 example : eliminate [exA, exB, exA] "Cd+2" = .ok [1, 4, -1] ∧ errOf (eliminate ([] : List (Equil Rat)) "X") = some "IndexError" ∧
     errOf (eliminate [exA, exW] "Cd+2") = some "ZeroDivisionError" := by decide +kernel
+/-- `as_reactions` refusals on the negative side of `asReactions_ok_iff`: both constants, none, no constant K, `0 ** negative`, division by K·c0^Δ = 0 -/
+example : errOf (asReactionsPy exA (some 3) (some 4) true false (1 : Rat)) = some "ValueError" ∧
+    errOf (asReactionsPy exA none none true false (1 : Rat)) = some "ValueError" ∧
+    errOf (asReactionsPy { exA with K := (none : Option Rat) } none (some 3) true false (1 : Rat)) = some "TypeError" ∧
+    errOf (asReactionsPy (⟨[("A", 2)], [("B", 1)], [], [], some (2 : Rat)⟩) (some 3) none true false (0 : Rat)) = some "ZeroDivisionError" ∧
+    errOf (asReactionsPy { exA with K := some (0 : Rat) } (some 3) none true false (1 : Rat)) = some "ZeroDivisionError" := by decide +kernel
+/-- checks arguments: explicit subset accepted without net effect; the unrepresentable region -/
+example : errOf (mkEqChecks true [("A", 1)] [("A", 1)] [] [] (some (2 : Rat)) (some ["all_positive"]) none) = none ∧
+    errOf (mkEqChecks true [("A", -1)] [("B", 1)] [] [] (some (2 : Rat)) none (some ["all_positive"])) = some "!negative-unchecked" := by
+  decide +kernel
+/-- multipliers as Python objects: `2`, `True`, `numpy.int64(-3)`, `2.0`, `Fraction(4, 2)` (callable `is_integer` returning True),
+    `sympy.Integer(2)` (attribute True) are accepted; `2.5`, `Fraction(5, 2)` (callable, False), `sympy.Rational(5, 2)` (False),
+    `sympy.Symbol` (None), `'2'` / `None` / `Decimal` (no attribute, not an int) are refused; the unfixed reading of `2.5`
+    (a callable taken as truthy) is not `Sound` -/
+example : ((⟨.method true, true, 2⟩ : PyMul).accepted ∧ (⟨.method true, false, 2⟩ : PyMul).accepted ∧ (⟨.value (some true), false, 2⟩ : PyMul).accepted) ∧
+    (¬ (⟨.method false, false, 5/2⟩ : PyMul).accepted ∧ ¬ (⟨.value (some false), false, 5/2⟩ : PyMul).accepted ∧
+     ¬ (⟨.value none, false, 0⟩ : PyMul).accepted ∧ ¬ (⟨.missing, false, 0⟩ : PyMul).accepted) := by decide +kernel
+example : (⟨.method true, false, -2⟩ : PyMul).Sound ∧ ¬ (⟨.method true, false, 5/2⟩ : PyMul).Sound := by
+  constructor
+  · intro _; decide +kernel
+  · intro h; exact absurd (h (by decide +kernel)) (by decide +kernel)
+example : isOk (rmulMul ⟨.method true, false, -2⟩ exA) = true ∧ errOf (rmulMul ⟨.method false, false, 5/2⟩ exA) = some "TypeError" := by decide +kernel
+example : (primeFactors 360 = [2, 3, 5]) ∧ isOk (cancelWith exA exW ["H2O", "H+", "OH-"]) = true := by decide +kernel
 example : intdiv (-7) 2 = -3 ∧ intdiv 7 (-2) = -3 ∧ intdiv (-7) (-2) = 3 := by decide +kernel
 end examples
 
